@@ -59,6 +59,11 @@ class SimStop(StopIteration):
     RuntimeError, so it is only injected into machines without coroutine callbacks.)"""
 
 
+class SimType(TypeError):
+    """A TypeError raised from inside a callback (``None + 1`` in user code): an ordinary failure, not a
+    statement about how the callback was called or how guard values compare."""
+
+
 class SimAttr(AttributeError):
     """An AttributeError raised from inside a callback or property body (e.g. ``self.customer.vip``
     with ``customer`` set to None): an ordinary failure, not 'the attribute does not exist'."""
@@ -78,6 +83,7 @@ EXC_CLASSES = {
     "SimRuntime": SimRuntime,
     "SimAttr": SimAttr,
     "SimStop": SimStop,
+    "SimType": SimType,
 }
 
 
